@@ -21,6 +21,7 @@ def run_shard(prop: str, tier: str, seed: int, shard: tuple[int, int], replay: s
     hgmon.pin_repo()
     mod = importlib.import_module(f"hgmon.props.{prop}")
     ctx = core.Ctx(prop, tier, seed, mod.LEVEL, mod.RULE, shard)
+    reach_on = core.rt.start_reach(os.path.join(hgmon.REPO, "src"))
     ctx.replay = None
     if replay:
         with open(replay) as f:
@@ -43,6 +44,7 @@ def run_shard(prop: str, tier: str, seed: int, shard: tuple[int, int], replay: s
         else:
             ctx.inconc(f"harness stopped by {type(e).__name__}: {str(e)[:200]} :: {tb[-1500:]}")
     res = ctx.result()
+    res["reached"] = sorted(f"{f}::{q}" for f, q in core.rt.REACHED) if reach_on else None
     res["assumptions"] = getattr(mod, "ASSUMPTIONS", [])
     return res
 
